@@ -80,7 +80,7 @@ theorem mem32_goUpper : ∀ (n : Nat) (w : Bytes), w.length ≤ n → (32 : UInt
 /-- **a phrase is never a number, a backslash or a comment** -/
 theorem searchKeyword_phrase (w : Bytes) (h : (32 : UInt8) ∈ w) :
     searchKeyword w ≠ 49 ∧ searchKeyword w ≠ 92 ∧ searchKeyword w ≠ 99 := by
-  unfold searchKeyword
+  rw [searchKeyword_eq]; unfold searchKeywordSpec
   simp only []
   cases hl : lookupKw (goUpper w).length (keyNat (goUpper w)) with
   | none => simp only []; decide
